@@ -1,4 +1,5 @@
 //! deb822-lossless core: C01 (reader round-trip) and shared helpers (tree dump, document generators)
+use crate::docspec::{self, Line};
 use crate::util::*;
 use crate::Resp;
 use deb822_lossless::Deb822;
@@ -78,6 +79,31 @@ pub fn handle(op: &str, a: &[&str]) -> Option<Resp> {
                 fail,
             ))
         }
+        ("deb.doc", [ls, fnl]) => {
+            let ls = docspec::dec_lines(ls)?;
+            let text = docspec::render(&ls, *fnl == "1");
+            let (view, strict) = view_doc(&text);
+            let mut fail = None;
+            if docspec::wf(&ls) {
+                // C03: accepted, and exactly the generator's content
+                match &strict {
+                    None => fail = Some("well-formed document rejected by the strict reader".to_string()),
+                    Some(d) => fail = check_content(d, &docspec::content(&ls)),
+                }
+            } else {
+                let raws = ls.iter().filter(|l| matches!(l, Line::Raw(_))).count();
+                let mut others = ls.clone();
+                others.retain(|l| !matches!(l, Line::Raw(_)));
+                if raws == 1 && docspec::wf_ignoring_raw(&ls) && strict.is_some() {
+                    fail = Some("document with a corrupted line accepted by the strict reader".to_string());
+                }
+            }
+            Some(Resp::with(format!("{} {}", es(&text), view), fail))
+        }
+        ("deb.view", [t]) => {
+            let s = ds(t)?;
+            Some(Resp::ok(view_doc(&s).0))
+        }
         ("deb.lossy", [t]) => {
             let s = ds(t)?;
             let r = deb822_lossless::lossy::Deb822::from_str(&s);
@@ -89,6 +115,94 @@ pub fn handle(op: &str, a: &[&str]) -> Option<Resp> {
         }
         _ => None,
     }
+}
+
+fn dedup(v: Vec<String>) -> Vec<String> {
+    let mut out: Vec<String> = vec![];
+    for x in v {
+        if !out.contains(&x) {
+            out.push(x);
+        }
+    }
+    out
+}
+
+/// canonical view of a strictly parsed document (same format as Driver/Deb.lean `viewDoc`)
+pub fn view_doc(s: &str) -> (String, Option<Deb822>) {
+    match Deb822::from_str(s) {
+        Err(_) => ("err".to_string(), None),
+        Ok(d) => {
+            let ps: Vec<deb822_lossless::Paragraph> = d.paragraphs().collect();
+            let items: Vec<String> = ps.iter().map(|p| enc_items(&p.items().collect::<Vec<_>>())).collect();
+            let keys: Vec<String> = ps.iter().map(|p| elist(&p.keys().collect::<Vec<_>>())).collect();
+            let looks: Vec<String> = ps
+                .iter()
+                .map(|p| {
+                    let mut ks = dedup(p.keys().collect());
+                    ks.push("Zz".to_string());
+                    ks.iter()
+                        .map(|k| {
+                            format!(
+                                "{}/{}/{}",
+                                eopt(p.get(k).as_deref()),
+                                elist(&p.get_all(k).collect::<Vec<_>>()),
+                                ebool(p.contains_key(k))
+                            )
+                        })
+                        .collect::<Vec<_>>()
+                        .join("|")
+                })
+                .collect();
+            let pfs = match deb822_lossless::Paragraph::from_str(s) {
+                Ok(p) => enc_items(&p.items().collect::<Vec<_>>()),
+                Err(_) => "none".to_string(),
+            };
+            (
+                format!("ok {} K[{}] L[{}] pfs:{}", items.join(";"), keys.join(";"), looks.join(";"), pfs),
+                Some(d),
+            )
+        }
+    }
+}
+
+/// C03 oracle: the live object exposes exactly `expected`
+fn check_content(d: &Deb822, expected: &[Vec<(String, String)>]) -> Option<String> {
+    let ps: Vec<deb822_lossless::Paragraph> = d.paragraphs().collect();
+    let got: Vec<Vec<(String, String)>> = ps.iter().map(|p| p.items().collect()).collect();
+    if got != expected {
+        return Some(format!("content differs: got {:?} expected {:?}", got, expected));
+    }
+    for (p, e) in ps.iter().zip(expected) {
+        let names: Vec<String> = e.iter().map(|(k, _)| k.clone()).collect();
+        if p.keys().collect::<Vec<_>>() != names {
+            return Some("keys() differs from field names in file order".to_string());
+        }
+        for k in dedup(names.clone()).iter().chain(std::iter::once(&"Zz".to_string())) {
+            let first = e.iter().find(|(n, _)| n == k).map(|(_, v)| v.clone());
+            let all: Vec<String> = e.iter().filter(|(n, _)| n == k).map(|(_, v)| v.clone()).collect();
+            if p.get(k) != first {
+                return Some(format!("get({:?}) is not the first field of that name", k));
+            }
+            if p.get_all(k).collect::<Vec<_>>() != all {
+                return Some(format!("get_all({:?}) is not every value in order", k));
+            }
+            if p.contains_key(k) != first.is_some() {
+                return Some(format!("contains_key({:?}) wrong", k));
+            }
+        }
+    }
+    let pfs = deb822_lossless::Paragraph::from_str(&d.to_string());
+    match (pfs, expected.first()) {
+        (Ok(p), Some(e)) => {
+            if &p.items().collect::<Vec<_>>() != e {
+                return Some("Paragraph::from_str is not the first paragraph".to_string());
+            }
+        }
+        (Err(_), None) => {}
+        (Ok(_), None) => return Some("Paragraph::from_str returned a paragraph for an empty document".to_string()),
+        (Err(_), Some(_)) => return Some("Paragraph::from_str failed on a well-formed document".to_string()),
+    }
+    None
 }
 
 pub fn enc_items(items: &[(String, String)]) -> String {
@@ -208,6 +322,91 @@ pub fn gen_texts(tier: &str, seed: u64) -> Vec<String> {
         }
     }
     v
+}
+
+pub fn generate_c03(tier: &str, seed: u64, out: &mut Out) {
+    let thorough = tier == "thorough";
+    let mut rng = Rng::new(seed);
+    // exhaustive tiny documents: <= 2 paragraphs x <= 2 fields over small layout option sets
+    let f1 = [Line::Field("A".into(), " ".into(), "b".into()), Line::Field("A".into(), "".into(), "".into()),
+              Line::Field("Bc".into(), "\t".into(), "x: y".into())];
+    let extras: Vec<Vec<Line>> = vec![
+        vec![], vec![Line::Cont(" ".into(), "c".into())], vec![Line::Cont("\t".into(), ".".into()), Line::Cont("  ".into(), "d e".into())],
+        vec![Line::Cont(" ".into(), ":x".into())],
+    ];
+    let pre: Vec<Vec<Line>> = vec![vec![], vec![Line::Comment(" c".into())], vec![Line::Blank], vec![Line::Comment("".into()), Line::Blank]];
+    let sep: Vec<Vec<Line>> = vec![vec![Line::Blank], vec![Line::Blank, Line::Blank], vec![Line::Blank, Line::Comment(" s".into()), Line::Blank], vec![Line::Blank, Line::Comment(" s".into())]];
+    let post: Vec<Vec<Line>> = vec![vec![], vec![Line::Comment(" t".into())], vec![Line::Blank], vec![Line::Blank, Line::Comment(" t".into())]];
+    let mut paras: Vec<Vec<Line>> = vec![];
+    for a in &f1 {
+        for ea in &extras {
+            let mut p = vec![a.clone()];
+            p.extend(ea.iter().cloned());
+            paras.push(p.clone());
+            for b in &f1 {
+                for mid in [false, true] {
+                    let mut q = p.clone();
+                    if mid {
+                        q.push(Line::Comment(" m".into()));
+                    }
+                    q.push(b.clone());
+                    paras.push(q);
+                }
+            }
+        }
+    }
+    let mut emit = |ls: &Vec<Line>, out: &mut Out| {
+        for fnl in ["1", "0"] {
+            out.req("deb.doc", &[docspec::enc_lines(ls), fnl.to_string()]);
+        }
+    };
+    for pr in &pre {
+        for po in &post {
+            let mut ls = pr.clone();
+            ls.extend(po.iter().cloned());
+            emit(&ls, out);
+            for p in &paras {
+                let mut ls = pr.clone();
+                ls.extend(p.iter().cloned());
+                ls.extend(po.iter().cloned());
+                emit(&ls, out);
+            }
+        }
+    }
+    let stride = if thorough { 1 } else { 7 };
+    let mut n = 0;
+    for p in &paras {
+        for q in &paras {
+            n += 1;
+            if n % stride != 0 {
+                continue;
+            }
+            for s in &sep {
+                let mut ls = p.clone();
+                ls.extend(s.iter().cloned());
+                ls.extend(q.iter().cloned());
+                emit(&ls, out);
+            }
+        }
+    }
+    // random well-formed documents + single-line corruptions
+    let nr = if thorough { 400_000 } else { 30_000 };
+    for _ in 0..nr {
+        let ls = docspec::random_lines(&mut rng, true);
+        let fnl = if rng.chance(75) { "1" } else { "0" };
+        out.req("deb.doc", &[docspec::enc_lines(&ls), fnl.to_string()]);
+        if rng.chance(40) && !ls.is_empty() {
+            let mut bad = ls.clone();
+            let i = rng.below(bad.len());
+            let b = Line::Raw(rng.pick(&docspec::BAD_LINES).to_string());
+            if rng.chance(50) {
+                bad[i] = b;
+            } else {
+                bad.insert(i, b);
+            }
+            out.req("deb.doc", &[docspec::enc_lines(&bad), fnl.to_string()]);
+        }
+    }
 }
 
 pub fn generate_c01(tier: &str, seed: u64, out: &mut Out) {
